@@ -254,9 +254,11 @@ def fieldSpecs (j : Json) : R (Handling × List (List String × Handling)) := do
       let h := match name with
         | "FieldMerge" => Handling.merge | "FieldReplace" => .replace
         | "FieldAppend" => .append | _ => .prepend
-      let paths := names.map (fun n =>
+      -- the option renders `name.*` into the policy tree with the separator in force *now*:
+      -- without a separator the entry is the single key "name.*", which no setting matches
+      let paths := if sep != "." then [] else names.map (fun n =>
         let n' := if n.endsWith ".*" then (n.dropEnd 2).toString else n
-        ((if sep == "" then [n'] else splitOn n' sep), h))
+        (splitOn n' sep, h))
       pure (g, fs ++ paths, sep)
     | _ => pure (g, fs, sep)) (Handling.dflt, [], "")
   pure (g, fs)
